@@ -89,7 +89,7 @@ def classify(finding, case):
         return (case.get("width", 0) > 0 and bool(case.get("subtree")) and case.get("raises") == "KeyError"
                 and bool(pp.namespaces_of(T) - pp.namespaces_of(t)))
     if finding["cls"] == "newline-in-indentation":
-        # the complement of the theorems' guard `no_lf ind` at width > 0
+        # (fixed by e1f59b7; the theorems hold for these indentations now)
         return case.get("width", 0) > 0 and "\n" in case.get("indentation", "")
     return False
 
@@ -142,7 +142,7 @@ def pick_options(ctx, n0, nw, hint):
         g.append((ctx.rng.choice(pp.INDENTS0), ctx.rng.random() < 0.3, 0))
     for _ in range(nw):
         w = width_hint if (width_hint and ctx.rng.random() < 0.6) else ctx.rng.choice(WIDTHS[1:])
-        ind = ind_hint if (ind_hint is not None and ctx.rng.random() < 0.7) else ctx.rng.choice(pp.INDENTS)
+        ind = ind_hint if (ind_hint is not None and ctx.rng.random() < 0.7) else ctx.rng.choice(pp.INDENTS0)
         g.append((ind, ctx.rng.random() < 0.25, w))
     return g
 
@@ -427,10 +427,10 @@ def run(ctx, args):
              "biased to width-1/width/width+1, long unbreakable words, escaped characters, comments/PIs between texts, "
              "empty elements, attributes, xml:space preserve/default/invalid at any depth, preserved content with "
              "newlines, preserved elements with nested children holding runs of spaces inside inline elements that fit the line) + conventionally laid out documents + chains of 9-12 nested elements; parsed with reduce_whitespace; serialized from the root and "
-             "from sampled sub-trees with indentation in {'', ' ', '  ', '\\t', ' \\t'} x width in {0..12, 20, 40, 80} x "
+             "from sampled sub-trees with indentation in {'', ' ', '  ', '\\t', ' \\t', '\\n', ' \\n', '\\n '} x width in {0..12, 20, 40, 80} x "
              "align in {F, T} (option sets drawn per tree; widths biased to the document's word lengths); indentations "
-             "with a newline ('\\n', ' \\n', '\\n ', '\\t\\n', '\\n\\n') at width 0 everywhere and at width > 0 on "
-             "dedicated documents (text ending in a space before an element, at depth 1-5; mixed documents); mixed and "
+             "with a newline ('\\n', ' \\n', '\\n ') take part in the grid at every width, and ('\\t\\n', '\\n\\n' too) "
+             "dedicated documents are biased to them (text ending in a space before an element, at depth 1-5; mixed documents); mixed and "
              "conventionally laid out documents with elements in 3 and attributes in 2 namespaces, run through the models "
              "as their qualified view (Ws/Qualified.v) with the prefix table and declarations read off the real plain "
              "serialization (root and sub-trees; re-read with the real namespace-aware parser); mixed documents parsed "
